@@ -501,14 +501,22 @@ impl SlabRouter {
         // a value that readers had already seen overwritten.
         let mut wal_guard = self.wal.as_ref().map(Mutex::lock);
         if let Some(wal) = wal_guard.as_mut() {
-            // Log embedding if present
-            if let Some(TensorValue::Vector(embedding)) = value.get("_embedding") {
-                let entity_id = self.index.get_or_create(key);
-                wal.append(&WalEntry::EmbeddingSet {
-                    entity_id,
-                    embedding: embedding.clone(),
-                })
-                .map_err(|e| SlabRouterError::WalError(format!("Failed to log embedding: {e}")))?;
+            // Log embedding if present. Only `emb:` keys live in the entity index and the
+            // embedding slab: `put` keeps a vector stored under any other key in the metadata
+            // slab alone and `delete` removes such a key from the metadata slab alone, so an
+            // entity id allocated here for it would never be released and `scan` would go on
+            // listing the key after its deletion.
+            if Self::classify_key(key) == KeyClass::Embedding {
+                if let Some(TensorValue::Vector(embedding)) = value.get("_embedding") {
+                    let entity_id = self.index.get_or_create(key);
+                    wal.append(&WalEntry::EmbeddingSet {
+                        entity_id,
+                        embedding: embedding.clone(),
+                    })
+                    .map_err(|e| {
+                        SlabRouterError::WalError(format!("Failed to log embedding: {e}"))
+                    })?;
+                }
             }
 
             // Log metadata set (sync behavior depends on WalConfig::sync_mode)
@@ -661,22 +669,24 @@ impl SlabRouter {
         match entry {
             WalEntry::MetadataSet { key, data } => {
                 self.metadata.set(key, data.clone());
-                // Also update embeddings if present
-                if let Some(TensorValue::Vector(vec)) = data.get("_embedding") {
+                // Same as `put`: only `emb:` keys have an entity id and a slab entry; a vector
+                // stored under any other key stays in the metadata slab alone.
+                if Self::classify_key(key) == KeyClass::Embedding {
                     let entity_id = self.index.get_or_create(key);
-                    if let Err(e) = self.embeddings.set(entity_id, vec) {
+                    if let Some(TensorValue::Vector(vec)) = data.get("_embedding") {
+                        if let Err(e) = self.embeddings.set(entity_id, vec) {
+                            self.embeddings.delete(entity_id);
+                            tracing::warn!(
+                                entity_id = %entity_id.as_u64(),
+                                key = %key,
+                                error = %e,
+                                "Failed to restore embedding during WAL replay"
+                            );
+                        }
+                    } else {
+                        // Drop any stale slab entry.
                         self.embeddings.delete(entity_id);
-                        tracing::warn!(
-                            entity_id = %entity_id.as_u64(),
-                            key = %key,
-                            error = %e,
-                            "Failed to restore embedding during WAL replay"
-                        );
                     }
-                } else if Self::classify_key(key) == KeyClass::Embedding {
-                    // Same as `put`: allocate the id and drop any stale slab entry.
-                    let entity_id = self.index.get_or_create(key);
-                    self.embeddings.delete(entity_id);
                 }
             },
             WalEntry::MetadataDelete { key } => {
